@@ -36,7 +36,7 @@ for p in props:
         "replay_cmd_template": "./check %s --replay {path}" % i,
         "engine": "hverif",
         "level_claimed": {"category": "exploration",
-                          "text": "Held on the monitored executions listed in the evidence file (bounded-exhaustive sub-spaces plus random/mutational and coverage-guided workloads, several build variants and instrumentation engines). Not a proof: inputs, configurations and schedules outside the workloads are not covered. Validated against 156 independently seeded breaking changes from sub-agents (each caught by the quick check of the property it targets; DESIGN.md 13.4) and a sample of 245 automatic single-token mutants (13.6).",
+                          "text": "Held on the monitored executions listed in the evidence file (bounded-exhaustive sub-spaces plus random/mutational and coverage-guided workloads, several build variants and instrumentation engines). Not a proof: inputs, configurations and schedules outside the workloads are not covered. Validated against 156 independently seeded breaking changes from sub-agents (each caught by the quick check of the property it targets; DESIGN.md 13.4) and 302 automatic single-token mutants (13.6: 76 survive the pinned suite, 58 caught, 18 equivalent).",
                           "design_ref": "DESIGN.md section 7 (%s) and section 13" % i},
         "level_note": "Trusted base: the harness (reference grammar spec.rs, guard-page arena, observer, oracles; positive-control canaries must fire in every run, else the run is inconclusive) and the add-only hooks under cfg(httparse_verif). Exit 2 (INCONCLUSIVE) is never folded into pass or violation.",
         "technique": tech[i],
